@@ -105,6 +105,8 @@ def build_ops():
         ("ljust*", lambda v: [v.ljust(len(v) + 2, "*")]),
         ("copy_with_new_atts(bold)", lambda v: [v.copy_with_new_atts(bold=True)]),
         ("copy_with_new_atts(fg)", lambda v: [v.copy_with_new_atts(fg=32)]),
+        ("copy_with_new_atts(bold=False)", lambda v: [v.copy_with_new_atts(bold=False)]),
+        ("fmtstr(v,bold=False,underline=False)", lambda v: [fmtstr(v, bold=False, underline=False)]),
         ("new_with_atts_removed(fg)", lambda v: [v.new_with_atts_removed("fg")]),
         ("new_with_atts_removed(bold,bg)", lambda v: [v.new_with_atts_removed("bold", "bg")]),
         ("copy_with_new_str", lambda v: [v.copy_with_new_str("new")]),
@@ -121,6 +123,9 @@ def build_ops():
         ("from_str(str(v))", lambda v: [FmtStr.from_str(str(v))]),
         ("linesplit(v,3)", lambda v: linesplit(v, 3)),
         ("v.join([v,'k',v])", lambda v: [v.join([v, "k", v])]),
+        ("fmtstr('').join([v,'k',v])", lambda v: [fmtstr("").join([v, "k", v])]),
+        ("v[1:1].join([v,v])", lambda v: [v[1:1].join([v, v])]),
+        ("(v*0).join([v,'k'])", lambda v: [(v * 0).join([v, "k"])]),
     ]
     B = [
         ("v+w", lambda v, w: [v + w]),
@@ -130,6 +135,8 @@ def build_ops():
         ("v.splice(w,0,1)", lambda v, w: [v.splice(w, 0, 1)]),
         ("v.append(w)", lambda v, w: [v.append(w)]),
         ("fsarray assign", fsa),
+        ("fmtstr('').join([v,w])", lambda v, w: [fmtstr("").join([v, w])]),
+        ("w[0:0].join([v,w,v])", lambda v, w: [w[0:0].join([v, w, v])]),
     ]
     return U, B
 
